@@ -153,3 +153,90 @@ func checkC09Dispatch(c *Ctx, n int) {
 		})
 	}
 }
+
+// checkC09BadPositional: a positional argument that cannot be converted is a bad value like any
+// other, on whichever way the word reaches the field - as a plain word, behind the terminator,
+// behind the first plain word under PassAfterNonOption, or as an unknown option passed through
+// under IgnoreUnknown: the parse fails and the CommandHandler is not called.
+func checkC09BadPositional(c *Ctx, n int) {
+	r := c.Rng
+	for i := 0; i < n; i++ {
+		ty := []string{"int", "u8", "f64", "dur"}[r.Intn(4)]
+		pos := &StructDesc{Fields: []FieldDesc{{Name: "First", Exported: true, Kind: "v", Ty: "str"}, {Name: "Count", Exported: true, Kind: "v", Ty: ty}}}
+		if r.Intn(2) == 0 {
+			pos.Fields = pos.Fields[1:]
+		}
+		run := &StructDesc{Fields: []FieldDesc{
+			{Name: "V", Exported: true, Kind: "v", Ty: "bool", Tag: `short:"v" long:"verbose"`},
+			{Name: "Args", Exported: true, Kind: "s", Sub: pos, Tag: `positional-args:"yes"`},
+		}}
+		root := &StructDesc{Fields: []FieldDesc{{Name: "Run", Exported: true, Kind: "s", Sub: run, Tag: `command:"run"`}}}
+		way := []string{"plain word", "behind the terminator", "behind the first plain word (PassAfterNonOption)", "unknown option passed through (IgnoreUnknown)", "control: convertible"}[r.Intn(5)]
+		cs := &Case{Name: "app", NsDelim: ".", EnvNsDelim: "_", CmdHandler: true}
+		if r.Intn(2) == 0 {
+			cs.Opts |= flags.PrintErrors
+		}
+		argv := []string{"run"}
+		if r.Intn(2) == 0 {
+			argv = append(argv, "-v")
+		}
+		if len(pos.Fields) == 2 {
+			argv = append(argv, "w")
+		}
+		bad := []string{"abc", "12x", "1.5.2", ""}[r.Intn(4)]
+		switch way {
+		case "plain word":
+			argv = append(argv, bad)
+		case "behind the terminator":
+			cs.Opts |= flags.PassDoubleDash
+			if len(pos.Fields) == 2 {
+				argv = []string{"run", "--", "w", bad}
+			} else {
+				argv = append(argv, "--", bad)
+			}
+		case "behind the first plain word (PassAfterNonOption)":
+			cs.Opts |= flags.PassAfterNonOption
+			if len(pos.Fields) == 2 {
+				argv = append(argv, bad)
+			} else {
+				argv = append(argv, bad, "-v")
+			}
+		case "unknown option passed through (IgnoreUnknown)":
+			cs.Opts |= flags.IgnoreUnknown
+			argv = append(argv, []string{"-x", "--nosuch", "--nosuch=1"}[r.Intn(3)])
+		default:
+			argv = append(argv, map[string]string{"dur": "7s"}[ty]+map[bool]string{true: "", false: "7"}[ty == "dur"])
+		}
+		cs.Build = []BuildOp{{Kind: "addgroup", Target: 1, Short: "Application Options", Struct: root}}
+		cs.Ops = []Op{{Kind: "parse", Args: argv}}
+		cs.Description = way + ": " + describeOps(cs)
+		c.RunCases([]*Case{cs}, func(cr *CaseResult) {
+			c.classifyCase(cr)
+			c.Class("c09/bad-positional: " + way + " type=" + ty)
+			var obs parseObs
+			for _, o := range parseBlocks(cr) {
+				obs = o
+			}
+			nHandler := 0
+			for _, l := range obs.logs {
+				if strings.HasPrefix(l, "LOG cmdhandler ") {
+					nHandler++
+				}
+			}
+			in := map[string]interface{}{"case": cs.Description, "argv": argv, "positional_type": ty, "way": way}
+			got := fmt.Sprintf("%s %s type %d %q, %d CommandHandler calls", obs.panic, obs.errKind, obs.errType, obs.errMsg, nHandler)
+			var ok bool
+			want := "an error, no CommandHandler call"
+			if way == "control: convertible" {
+				ok = obs.panic == "" && obs.errKind == "ok" && nHandler == 1
+				want = "success, one CommandHandler call"
+			} else {
+				ok = obs.panic == "" && obs.errKind != "ok" && nHandler == 0
+			}
+			if !ok {
+				in["case_file"] = c.saveCase(cr)
+			}
+			c.Check("unconvertible-positional-stops-everything", ok, "C09:bad-positional", in, got, want)
+		})
+	}
+}
